@@ -12,6 +12,11 @@ import (
 	"pgregory.net/rapid"
 
 	"go.opentelemetry.io/collector/consumer/consumererror"
+	"go.opentelemetry.io/collector/consumer/consumererror/xconsumererror"
+	"go.opentelemetry.io/collector/pdata/plog"
+	"go.opentelemetry.io/collector/pdata/pmetric"
+	"go.opentelemetry.io/collector/pdata/pprofile"
+	"go.opentelemetry.io/collector/pdata/ptrace"
 )
 
 // Outcome scripts what the receiver's next consumer answers.
@@ -22,6 +27,11 @@ type Outcome struct {
 	DelayMS int64
 	Extra   bool   // status: an unrelated detail (ErrorInfo) travels in front of RetryInfo
 	Wrap    string // "" | fmt | permanent — how the error is wrapped before it is returned
+	// Carry: the error additionally names the data that failed, the way processors and exporters report a partial
+	// failure (consumererror.New{Logs,Traces,Metrics}, xconsumererror.NewProfiles around the error): "" | first (the
+	// first item of the received payload only) | whole | empty.  It does not change what the error means: the consumer
+	// did not accept the request.
+	Carry string `json:",omitempty"`
 }
 
 func (o Outcome) String() string {
@@ -37,12 +47,19 @@ func (o Outcome) String() string {
 		if o.Wrap != "" {
 			s += ",wrap=" + o.Wrap
 		}
+		if o.Carry != "" {
+			s += ",carry=" + o.Carry
+		}
 		return s + ")"
 	}
-	if o.Wrap != "" {
-		return o.Kind + "/" + o.Wrap
+	k := o.Kind
+	if o.Carry != "" {
+		k += "+carry:" + o.Carry
 	}
-	return o.Kind
+	if o.Wrap != "" {
+		return k + "/" + o.Wrap
+	}
+	return k
 }
 
 func (o Outcome) delay() time.Duration { return time.Duration(o.DelayMS) * time.Millisecond }
@@ -141,6 +158,91 @@ func (o Outcome) httpThrottle() time.Duration {
 var delaysMS = []int64{0, 1, 40, 250, 999, 1000, 1001, 1500, 2000, 2999, 3000, 7000, 60000, 3600000}
 
 func genOutcome(t *rapid.T) Outcome {
+	o := genOutcomeBase(t)
+	if o.Kind != "nil" && rapid.IntRange(0, 3).Draw(t, "carry") == 0 {
+		o.Carry = rapid.SampledFrom([]string{"first", "first", "whole", "empty"}).Draw(t, "carrymode")
+	}
+	return o
+}
+
+// carried wraps e the way a component reports which part of v failed.
+func carried(e error, v any, mode string) error {
+	if e == nil || mode == "" {
+		return e
+	}
+	first := func(i *int) bool { *i++; return *i > 1 }
+	switch d := v.(type) {
+	case plog.Logs:
+		sub := plog.NewLogs()
+		switch mode {
+		case "whole":
+			d.CopyTo(sub)
+		case "first":
+			d.CopyTo(sub)
+			n := 0
+			sub.ResourceLogs().RemoveIf(func(plog.ResourceLogs) bool { return first(&n) })
+			for i := 0; i < sub.ResourceLogs().Len(); i++ {
+				n = 0
+				sl := sub.ResourceLogs().At(i).ScopeLogs()
+				sl.RemoveIf(func(plog.ScopeLogs) bool { return first(&n) })
+				for j := 0; j < sl.Len(); j++ {
+					n = 0
+					sl.At(j).LogRecords().RemoveIf(func(plog.LogRecord) bool { return first(&n) })
+				}
+			}
+		}
+		return consumererror.NewLogs(e, sub)
+	case ptrace.Traces:
+		sub := ptrace.NewTraces()
+		switch mode {
+		case "whole":
+			d.CopyTo(sub)
+		case "first":
+			d.CopyTo(sub)
+			n := 0
+			sub.ResourceSpans().RemoveIf(func(ptrace.ResourceSpans) bool { return first(&n) })
+			for i := 0; i < sub.ResourceSpans().Len(); i++ {
+				n = 0
+				sl := sub.ResourceSpans().At(i).ScopeSpans()
+				sl.RemoveIf(func(ptrace.ScopeSpans) bool { return first(&n) })
+				for j := 0; j < sl.Len(); j++ {
+					n = 0
+					sl.At(j).Spans().RemoveIf(func(ptrace.Span) bool { return first(&n) })
+				}
+			}
+		}
+		return consumererror.NewTraces(e, sub)
+	case pmetric.Metrics:
+		sub := pmetric.NewMetrics()
+		switch mode {
+		case "whole":
+			d.CopyTo(sub)
+		case "first":
+			d.CopyTo(sub)
+			n := 0
+			sub.ResourceMetrics().RemoveIf(func(pmetric.ResourceMetrics) bool { return first(&n) })
+			for i := 0; i < sub.ResourceMetrics().Len(); i++ {
+				n = 0
+				sl := sub.ResourceMetrics().At(i).ScopeMetrics()
+				sl.RemoveIf(func(pmetric.ScopeMetrics) bool { return first(&n) })
+				for j := 0; j < sl.Len(); j++ {
+					n = 0
+					sl.At(j).Metrics().RemoveIf(func(pmetric.Metric) bool { return first(&n) })
+				}
+			}
+		}
+		return consumererror.NewMetrics(e, sub)
+	case pprofile.Profiles:
+		sub := pprofile.NewProfiles()
+		if mode == "whole" {
+			d.CopyTo(sub)
+		}
+		return xconsumererror.NewProfiles(e, sub)
+	}
+	return e
+}
+
+func genOutcomeBase(t *rapid.T) Outcome {
 	switch rapid.SampledFrom([]string{"nil", "nil", "plain", "permanent", "status", "status", "status", "status", "status", "status"}).Draw(t, "outcome") {
 	case "nil":
 		return Outcome{Kind: "nil"}
